@@ -75,14 +75,43 @@ def run(ctx):
                     ctx.violation("reduction", f"densMAP with {label} differs from plain UMAP (max |diff| = {d})", case)
                 ctx.case(key=str(case), nontrivial=True, sample=case if len(ctx.samples) < 3 else None, part="reduction", setting=label, n_epochs=ne)
 
+        # zero-weight reduction where the (zero-weighted) density term itself would be non-finite:
+        # an isolated sample (phi_sum = 0) and graph neighbours that coincide in the layout (0 * inf)
+        Xi = X.copy()
+        Xi[0] = Xi[0] + 1000.0
+        from sklearn.metrics import pairwise_distances as _pd
+        thr = float(np.quantile(_pd(X), 0.9))
+        zero_init = np.zeros((n, 2), dtype=np.float32)
+        for label, common, extra in (
+                ("isolated sample, lambda=0, frac=0.5", dict(disconnection_distance=thr), dict(densmap=True, dens_lambda=0.0, dens_frac=0.5)),
+                ("all-zero init, lambda=0, frac=1", dict(init=zero_init), dict(densmap=True, dens_lambda=0.0, dens_frac=1.0))):
+            base = dict(n_neighbors=8, random_state=seed, n_epochs=20, **common)
+            case = {"n": n, "seed": seed, "setting": label}
+            try:
+                plain = umap.UMAP(**base).fit_transform(Xi)
+            except Exception as ex:  # noqa
+                ctx.skip(f"plain UMAP not applicable for '{label}': {type(ex).__name__}")
+                continue
+            try:
+                e = umap.UMAP(**base, **extra).fit_transform(Xi)
+                if e.shape != plain.shape or not np.array_equal(e, plain, equal_nan=True):
+                    ctx.violation("reduction", f"densMAP with zero weight ({label}) differs from plain UMAP", case)
+            except Exception as ex:  # noqa
+                ctx.violation("reduction", f"densMAP with zero weight ({label}) raised {type(ex).__name__}: {ex} where plain UMAP succeeds", case)
+            ctx.case(key=str(case), nontrivial=True, part="reduction-degenerate", setting=label)
+
         # radii
         for ne in ((30, 200) if ctx.thorough else (30,)):
             k = int(rng.integers(6, 14))
             case = {"n": n, "n_epochs": ne, "n_neighbors": k, "seed": seed}
-            for dm in (False, True):
+            for dm, Xr, variant in ((False, X, "plain"), (True, X, "plain"),
+                                    (False, np.vstack([X, np.repeat(X[:1] + 50.0, k + 3, axis=0)]).astype(np.float32), "duplicate-block"),
+                                    (False, (X * 1e-4).astype(np.float32), "scale-1e-4")):
+                n = Xr.shape[0]
+                case = dict(case, variant=variant, n=n)
                 try:
                     m = umap.UMAP(n_neighbors=k, random_state=seed, n_epochs=ne, output_dens=True, densmap=dm)
-                    out = m.fit_transform(X)
+                    out = m.fit_transform(Xr)
                 except Exception as ex:  # noqa
                     ctx.violation("exception", f"output_dens fit raised {type(ex).__name__}: {ex}", dict(case, densmap=dm))
                     continue
@@ -98,7 +127,7 @@ def run(ctx):
                     ctx.violation("radii-finite", "non-finite radius of a non-isolated sample", dict(case, densmap=dm))
                 ref, edges = radii_reference(m.graph_, m.graph_dists_, ne if ne > 10 else 500 + (200 if dm else 0))
                 ok = np.isfinite(ref)
-                if np.max(np.abs(ro[ok] - ref[ok])) > 2e-3 * max(1.0, float(np.max(np.abs(ref[ok])))):
+                if np.max(np.abs(ro[ok] - ref[ok])) > 2e-2:
                     i = int(np.argmax(np.where(ok, np.abs(ro - ref), 0)))
                     ctx.violation("rad-orig", f"sample {i}: rad_orig = {ro[i]}, log weighted mean squared graph distance = {ref[i]}", dict(case, densmap=dm))
                 toks = ["radii", n, len(edges)]
@@ -110,6 +139,9 @@ def run(ctx):
                     ctx.mismatch("radii", {"max_diff": float(np.max(np.abs(mo[ok] - ro[ok])))}, dict(case, densmap=dm))
                 # embedded radii: the same quantity on the embedding's own fuzzy graph
                 rs = np.random.RandomState(0)
+                if variant != "plain":
+                    ctx.case(key=str(case) + str(dm), nontrivial=True, part="radii", densmap=dm, variant=variant)
+                    continue
                 ki, kd, _ = U.nearest_neighbors(emb, k, "euclidean", {}, False, rs)
                 eg, _, _, ed = U.fuzzy_simplicial_set(emb, k, rs, "euclidean", {}, ki, kd, return_dists=True)
                 ref_e, _ = radii_reference(eg, ed, None)
